@@ -27,6 +27,9 @@ def build_replay(repo, work):
     shutil.copytree(os.path.join(VERIF, 'replay'), rdir)
     t = open(os.path.join(rdir, 'Cargo.toml.in')).read().replace('@REPO@', repo)
     open(os.path.join(rdir, 'Cargo.toml'), 'w').write(t)
+    # the C API crate builds only as cdylib/staticlib: compile its source into the replay binary as a module
+    open(os.path.join(rdir, 'src', 'storm_mod.rs'), 'w').write(
+        '#[allow(dead_code, unused, unsafe_op_in_unsafe_fn, clippy::all, unexpected_cfgs)]\n#[path = "%s/ffi/storm-ffi/src/lib.rs"]\npub mod storm;\n' % repo)
     if os.path.exists(os.path.join(repo, 'Cargo.lock')):
         shutil.copy(os.path.join(repo, 'Cargo.lock'), os.path.join(rdir, 'Cargo.lock'))
     env = dict(os.environ)
